@@ -14,10 +14,11 @@ Rec == IF "TRACE" \in DOMAIN IOEnv THEN ndJsonDeserialize(IOEnv.TRACE) ELSE <<>>
 VARIABLES l,       \* next event to consume
           ti,      \* position according to the reference bookkeeping (resynchronised on every event)
           tbp,     \* user breakpoints
-          viol     \* verdicts: sequence of [k, class, action, expected, actual]
-tvars == <<l, ti, tbp, viol>>
+          viol,    \* verdicts: sequence of [k, class, action, expected, actual]
+          tsg      \* SIGUSR1 sent by the harness: 0 none, 1 sent (not yet reported), 2 reported (delivered by the next resume)
+tvars == <<l, ti, tbp, viol, tsg>>
 
-TInit == l = 1 /\ ti = 0 /\ tbp = {} /\ viol = <<>>
+TInit == l = 1 /\ ti = 0 /\ tbp = {} /\ viol = <<>> /\ tsg = 0
 
 SeqToSet(s) == {s[k] : k \in 1..Len(s)}
 V(k, cls, act, exp, actl) == [k |-> k, class |-> cls, action |-> act, expected |-> exp, actual |-> actl]
@@ -60,12 +61,30 @@ BtChecks(k, e, j) ==
        \o (IF e.fi_ret # -1 /\ RetAddr(j) # -1 /\ e.fi_ret # RetAddr(j)
               THEN <<V(k, "frame_return_address_wrong", e.cmd, RetAddr(j), e.fi_ret)>> ELSE <<>>)
 
+RunCmds == {"start", "continue", "stepi", "step", "next", "finish"}
 Consume ==
   /\ l <= Len(Rec)
   /\ LET e == Rec[l] k == l IN
      /\ l' = l + 1
+     /\ tsg' = CASE e.cmd = "reset" -> 0
+                 [] e.cmd = "signal" /\ e.ok -> 1
+                 [] e.cmd \in RunCmds /\ tsg = 1 /\ e.said = "signal" -> 2
+                 [] e.cmd \in RunCmds /\ tsg = 2 -> 0
+                 [] e.cmd = "restart" -> 0
+                 [] OTHER -> tsg
      /\ CASE e.cmd = "reset" ->          \* a new session starts (several sessions are judged in one run)
                /\ ti' = 0 /\ tbp' = {} /\ viol' = viol
+          [] e.cmd \in RunCmds /\ ti \in 1..N /\ tsg = 1 /\ e.said = "signal" ->
+               \* the pending signal cuts the command short and it says so (C03 last sentence): the program
+               \* has not moved (or has executed the one instruction it was stepping over a breakpoint with)
+               /\ tbp' = tbp
+               /\ ti' = IF e.idx = 0 THEN ti ELSE e.idx
+               /\ viol' = viol \o (IF e.idx \in {ti, ti + 1} THEN <<>>
+                                   ELSE <<V(k, "signal_stop_moved_program", e.cmd, {ti, ti + 1}, e.idx)>>)
+                                \o PatchChecks(k, e, tbp)
+          [] e.cmd \in {"stepi", "step", "next", "finish"} /\ ti \in 1..N /\ tsg = 2 ->
+               \* stepping with a signal to deliver enters the program's handler: not judged
+               /\ tbp' = tbp /\ ti' = (IF e.idx = 0 THEN ti ELSE e.idx) /\ viol' = viol
           [] e.cmd = "restart" ->
                \* C11: same breakpoints (same numbers), hit again at the same place; exit status is the real one
                LET want == RefContinue(0, tbp) IN
@@ -100,7 +119,7 @@ Consume ==
                /\ tbp' = IF e.ok THEN tbp \ SeqToSet(e.addrs) ELSE tbp
                /\ ti' = ti
                /\ viol' = viol \o PatchChecks(k, e, IF ti = 0 THEN {} ELSE tbp')
-          [] (e.cmd = "start" /\ ti = 0) \/ (e.cmd = "continue" /\ ti \in 1..N) ->
+          [] (e.cmd = "start" /\ ti = 0) \/ (e.cmd = "continue" /\ ti \in 1..N /\ ~(tsg = 1 /\ e.said = "signal")) ->
                LET want == RefContinue(ti, tbp) IN
                /\ tbp' = tbp
                /\ ti' = IF e.idx = 0 THEN want ELSE e.idx
@@ -124,11 +143,13 @@ Consume ==
           [] e.cmd = "start" /\ ti # 0 ->
                /\ UNCHANGED <<ti, tbp>>
                /\ viol' = viol \o (IF e.ok THEN <<V(k, "accepted_without_process", e.cmd, "error", "ok")>> ELSE <<>>)
-          [] e.cmd \in {"stepi", "step", "next", "finish"} /\ ti \in 1..N /\ MaxOf(Adm(e.cmd, ti) \cup {ti}) >= TailPos ->
+          [] e.cmd \in {"stepi", "step", "next", "finish"} /\ ti \in 1..N /\ ~(tsg = 1 /\ e.said = "signal") /\ tsg # 2
+             /\ MaxOf(Adm(e.cmd, ti) \cup {ti}) >= TailPos ->
                \* the step may run into code outside the recorded execution (the puppet's final report calls
                \* into std): no verdict, follow the real program
                /\ tbp' = tbp /\ ti' = (IF e.idx = 0 THEN ti ELSE e.idx) /\ viol' = viol
-          [] e.cmd \in {"stepi", "step", "next", "finish"} /\ ti \in 1..N /\ MaxOf(Adm(e.cmd, ti) \cup {ti}) < TailPos ->
+          [] e.cmd \in {"stepi", "step", "next", "finish"} /\ ti \in 1..N /\ ~(tsg = 1 /\ e.said = "signal") /\ tsg # 2
+             /\ MaxOf(Adm(e.cmd, ti) \cup {ti}) < TailPos ->
                LET adm == Adm(e.cmd, ti)
                    cut == RefContinue(ti, tbp)
                    j   == e.idx IN
